@@ -8,8 +8,8 @@ EXPLANATION = ("U1 panic-source cone (MIR call graph) from the eight public cons
                "and may-panic external call must be absent or reviewed in rules/triage/C18.tsv; U2 all paths of the TCP constructor: the "
                "address connected to is `<host>:<port>` with host = the URL's host, or localhost when it is absent or empty, and port = "
                "the URL's port, else 389 for ldap and 636 for ldaps; any other scheme returns UnknownScheme; the mode of every connection handed back, read off the path's events, is the scheme's: ldaps = TLS from the first byte whatever the StartTLS setting says, ldap = StartTLS exactly when the setting is requested, cleartext otherwise (the setting as the path found it: a getter applied after builder calls is resolved by the meaning of the builder interface, not by where the test sits); ldapi goes to the Unix "
-               "constructor; U3 the Unix constructor: empty path -> EmptyUnixPath, ':' in the path -> PortInUnixPath, the path is "
-               "percent-decoded before connecting, a pre-opened Unix stream is accepted and a TCP/invalid one is MismatchedStreamType; the "
+               "constructor; U3 the Unix constructor: empty path -> EmptyUnixPath, ':' in the path -> PortInUnixPath; the FUNCTION from the URL's host string to the path handed to UnixStream::connect is exactly one percent-decoding D (percent_decode / percent_decode_str + decode_utf8_lossy / decode_utf8; text-preserving conversions looked through; helpers introduced later are expanded, so a decoding inside a helper and one at the call site compose visibly): D(host) - host itself or D(D(host)) name another file (`%2541` names `%41`, twice decoded dials `A`); the emptiness test is made on the host string (or its one decoding, empty exactly when the host is), the ':' test on the UNDECODED host (an encoded `%3A` is part of the path); and the same function is decided a second time by exact evaluation on literal hosts that tell the candidates apart (rules/strdom.py, the decoder evaluated exactly on literals; an empty or absent host together with a port is not a value a Url can hold - url 2.x refuses it - so which error such a path answers is not observable); "
+               "a pre-opened Unix stream is accepted and a TCP/invalid one is MismatchedStreamType; the "
                "TCP constructor accepts a pre-opened TCP stream and rejects the others; U4 when a connection timeout is set the future of "
                "the whole TCP constructor (which contains StartTLS and the handshake) is wrapped in tokio::time::timeout with that duration "
                "and expiry is propagated as an error; U6 every builder method of the settings struct, evaluated on literals in every reachable state of the struct (the states enumerated from the constructors by the builder methods themselves), leaves every other setting reading as before - StartTLS through its getter, the verification setting in the default connector - and every opaque field (timeout, connector, stream) `self`'s own; how the struct keeps its settings (a bool each, bits of a flags byte) is not read (a method that resets another setting drops what was requested before it in the chain); U6.request-recorded after set_x(v) every Option-valued setting x (connection timeout, pre-opened stream, the caller's connector / configuration) reads v - the payload its consumer takes out of the field is the setter's argument - from every reachable state, the one in which x was already set included (Option's `&mut self` methods are modelled exactly: `= Some(v)`, replace, insert, mem::replace are the same, get_or_insert keeps the first value and is reported). Not decided: unreachable endpoints (OS behaviour); the url crate's parser.")
